@@ -527,7 +527,7 @@ func genC12(c *ctx) {
 			macaroon.DecodeNonce(in)
 			exerciseHeader(macaroon.ToAuthorizationHeader(in))
 		})
-		bound := uint64(256*len(input)) + 16<<20
+		bound := uint64(256*len(input)) + 64<<20
 		fail := ""
 		if res.panicked != "" {
 			fail = "panic: " + res.panicked
@@ -585,7 +585,7 @@ func genC12(c *ctx) {
 		}
 	}
 	c.set.Notes["fuzz"] = map[string]any{"inputs": n, "json_docs": nj, "panics": panics, "max_alloc_bytes": worst, "max_alloc_input_prefix": worstIn,
-		"alloc_bound": "256*len + 16 MiB (TotalAlloc delta over all operations on the input)"}
+		"alloc_bound": "256*len + 64 MiB (TotalAlloc delta over all operations on the input)"}
 }
 
 func edgeCavSmall(r *rng.R) m.Cav {
